@@ -99,7 +99,13 @@ def run(rep, tier):
             ok = (fn["n"].startswith(SB + "::") and fn["sn"] in ENTRY and ENTRY[fn["sn"]][0] == callee) or \
                  (fn["n"] == SB + "::get_app_pointer" and callee == "impl_get_unsandboxed_pointer") or \
                  fn["sn"].startswith("impl_")
-            if not ok and fn["n"].startswith(SB + "::") and fn.get("access") in (1, 2):
+            if not ok and fn["n"].startswith("rlbox::") and self_guarded_translation(db, fn):
+                # the function carries the null short-circuit itself: on every path the backend hook is called only with an argument
+                # that was tested non-null / non-zero (the entry points' bodies moved into a helper that others may call too)
+                ok = True
+            encl = db.rec_by_id.get(fn.get("rid")) or {}
+            hidden = fn.get("access") in (1, 2) or (encl.get("access") in (1, 2) and (encl.get("n") or "").startswith(SB + "::"))
+            if not ok and fn["n"].startswith(SB + "::") and hidden:
                 # a non-public helper shared by the entry points: its callers must all be entry points (R-C04-null then judges the
                 # null short-circuit and the choice of backend hook on each entry point with the helper inlined)
                 from .owners import reached_only_from
@@ -134,6 +140,31 @@ def run(rep, tier):
     rep.extra["instances"] = n
     rep.assumptions += ["round-trip arithmetic of third-party backends is the backend contract (impl_get_unsandboxed_pointer/impl_get_sandboxed_pointer are inverse on in-sandbox addresses)",
                         "the run-time content of the live-sandbox list is governed by C14/C18"]
+
+
+_SELF_GUARDED = {}
+
+
+def self_guarded_translation(db, fn):
+    key = (id(db), fn["id"])
+    if key in _SELF_GUARDED:
+        return _SELF_GUARDED[key]
+    res = False
+    try:
+        ps = Engine(db).run(fn)
+        n = 0
+        res = bool(ps)
+        for p in ps:
+            for i, e in enumerate(p.events):
+                if e.kind == "CALL" and q.short(e.a) in IMPL:
+                    n += 1
+                    if not e.b or not q.nonnull(q.conds_before(p, i), e.b[0]):
+                        res = False
+        res = res and n > 0
+    except Inconclusive:
+        res = False
+    _SELF_GUARDED[key] = res
+    return res
 
 
 def check_entry(rep, db, f, inst):
